@@ -70,6 +70,9 @@ def coerce(sv, ty):
         if sv.ty.kind in ('any', 'opt'):
             return SV(P.unI(sv.term), ty)
     if ty.kind == 'bool':
+        if getattr(sv, 'truth', None) is not None:
+            # `a and b` / `a or b` on non-boolean operands read as a Bool: its truthiness (the value itself is opaque)
+            return SV(sv.truth, ty)
         if sv.ty.kind in ('any', 'opt'):
             return SV(P.unB(sv.term), ty)
     if zsort(ty) == P.V:
